@@ -44,6 +44,9 @@ class Registry:
         """Contract for one implementation function (template name) specialised for the symbol"""
         name = func["name"]
         kw = dict(self.manual.get(name, {}))
+        want_file = kw.pop("file", None)
+        if want_file and os.path.basename(func.get("file", "")) != want_file:
+            kw = {}       # a different template that happens to share the name (another translation unit)
         src = kw.pop("_src", None)
         auto = self.auto.get(name)
         ext = {}
